@@ -1096,6 +1096,9 @@ func boundedBodyRule(c *Ctx, pr *PropertyRun, prop string) {
 		}
 	}
 	r.RequireRole("bounded-read-in-gate")
+	if p.Control {
+		r.ExpectControl("unbounded-body|internal.zzVerifControlDrain")
+	}
 }
 
 // closesResponseParam: library function g closes the Body of its parameter
